@@ -271,7 +271,8 @@ def plan(seed, tier="quick", index=0):
                 "recipient": rdesc,
                 "change": change,
                 "fraction": frac,
-                "fee": 1000 if clean else rng.choice([0, 1, 500, 1000, 1000, 2500, 10000]),
+                # fees from nothing to absurd: the property puts no upper bound on them
+                "fee": 1000 if clean else rng.choice([0, 1, 500, 1000, 1000, 2500, 10000, 10000, 250000, 10_000_001, 25_000_000, 300_000_000]),
                 "version": 1 if clean else rng.choice([1, 1, 2]),
                 "locktime": 0 if clean else rng.choice([0, 0, 1, 500000, 1700000000]),
                 "flag": 0x01 if clean else rng.choice(FLAGS + [0x01, 0x01]),
